@@ -75,7 +75,8 @@ def parseEv? (s : String) : Option Ev :=
     let dg ← parseList? parseDigest? dg; let mat ← parseHex? mat
     pure (.hsOk dg (if sel = "-" then "" else sel) mat)
   | ["D", d] => (parseHex? d).map .sendData
-  | ["R", d] => (parseHex? d).map .sendRtp
+  | ["R", d] => (parseHex? d).map (.sendRtp · true)
+  | ["R", d, "F"] => (parseHex? d).map (.sendRtp · false)
   | ["X"] => some .stop
   | _ => none
 
@@ -91,11 +92,53 @@ def traceOne (spec : String) : String :=
     | _, _, _, _ => "bad-op"
   | _ => "bad-op"
 
+def validateOne (dg fps : String) : String :=
+  match parseList? parseDigest? dg, parseList? parseFp? fps with
+  | some dg, some fps => showBool (acceptedReal dg fps)
+  | _, _ => "bad-op"
+
+/-- A sequence of validations in one process: the policy is a pure function of (digests, list), so the
+model answers every element on its own — whatever the implementation remembers between them shows. -/
+def strToString (s : Str) : String := String.ofList (s.map Char.ofNat)
+
+/-- canonical form of what `getFingerprints()` returns: `alg=value` lower-cased, joined by ';' -/
+def localOne (dg : String) : String :=
+  match parseList? parseDigest? dg with
+  | some dg => ";".intercalate ((localFingerprints dg).map fun f =>
+      strToString (asciiLower f.algorithm) ++ "=" ++ strToString (asciiLower f.value))
+  | none => "bad-op"
+
+def validateSeq : List String → List String
+  | "L" :: dg :: rest => localOne dg :: validateSeq rest
+  | dg :: fps :: rest => validateOne dg fps :: validateSeq rest
+  | [_] => ["bad-op"]
+  | [] => []
+
+def showPktOut : PktOut → String
+  | .txRefused => "T" | .rxOld => "O" | .rxReplay => "R" | .authFail => "A" | .delivered => "D"
+
+/-- `ssrc:index:altered` -/
+def parsePkt? (s : String) : Option (Nat × Nat × Bool) :=
+  match s.splitOn ":" with
+  | [a, b, c] => do let a ← parseNat? a; let b ← parseNat? b; let c ← parseBool? c; pure (a, b, c)
+  | _ => none
+
+/-- Independent replay databases per SSRC. -/
+def windowRun (wtx wrx : Nat) (rep : Bool) : List (Nat × Link) → List (Nat × Nat × Bool) → List String
+  | _, [] => []
+  | ls, (ssrc, i, a) :: ps =>
+    let l := (ls.lookup ssrc).getD {}
+    let r := l.send wtx wrx rep i a
+    showPktOut r.2 :: windowRun wtx wrx rep ((ssrc, r.1) :: ls.filter (fun x => x.1 != ssrc)) ps
+
 def handleTop : List String → String
-  | ["validate", dg, fps] =>
-    match parseList? parseDigest? dg, parseList? parseFp? fps with
-    | some dg, some fps => showBool (acceptedReal dg fps)
-    | _, _ => "bad-op"
+  | ["validate", dg, fps] => validateOne dg fps
+  | "validateseq" :: rest => " ".intercalate (validateSeq rest)
+  | ["window", wtx, wrx, rep, pkts] =>
+    match parseNat? wtx, parseNat? wrx, parseBool? rep, parseList? parsePkt? pkts with
+    | some wtx, some wrx, some rep, some pkts =>
+      showList id (windowRun (effWindow wtx) (effWindow wrx) rep [] pkts)
+    | _, _, _, _ => "bad-op"
   | ["digest", b] =>
     match parseHex? b with
     | some b => showList toString (colonHex b)
